@@ -102,14 +102,18 @@ def case_exp(H, g, f32=False):
         small_theta = ctx.feasible([theta > big]) == 'unsat'
         small_sigma = sg is not None and ctx.feasible([z3.Or(sg > big, sg < -big)]) == 'unsat'
         small = small_theta or small_sigma
+        # joint Taylor branch of the coupling matrix (theta^2 + sigma^2 below a dtype-dependent cut-off well above eps): its truncation
+        # error is by design far below the translation block's sqrt(eps) allowance but not at round-off level
+        small_W = (not small) and sg is not None and ctx.feasible([T.dot(ph, ph) + sg * sg > z3.RealVal('1/10000')]) == 'unsat'
+        tolW = (z3.RealVal('1/1000000000000') if not f32 else z3.RealVal('1/100000')) if small_W else None
         tol = z3.RealVal('1/1000000000000000') if not f32 else z3.RealVal('1/1000000')
         to = (20 if g != 'Sim3' else 12) if H.quick else 120
         key = 'C01/%s' % ALG[g]
 
-        def eq(nm, lhs, rhs, scale=None, approx=None):
+        def eq(nm, lhs, rhs, scale=None, approx=None, tol_=None):
             d = lhs - rhs
             if (small if approx is None else approx):
-                bound = tol * (1 + (scale if scale is not None else 0))
+                bound = (tol_ if tol_ is not None else tol) * (1 + (scale if scale is not None else 0))
                 H.prove('%s/path%d/%s/small-regime' % (name, pn, nm), hyp, z3.And(d <= bound, d >= -bound), replay=replay, key=key, timeout=to,
                         neg_margin=z3.Or(d > z3.RealVal('1/1000'), d < -z3.RealVal('1/1000')))
             else:
@@ -147,8 +151,8 @@ def case_exp(H, g, f32=False):
             AW, WA = T.mm(A, W), T.mm(W, A)
             for i in range(3):
                 for j in range(3):
-                    eq('A.W==e^sigma.R-I[%d,%d]' % (i, j), AW[i][j], RHS[i][j])
-                    eq('W.A==e^sigma.R-I[%d,%d]' % (i, j), WA[i][j], RHS[i][j])
+                    eq('A.W==e^sigma.R-I[%d,%d]' % (i, j), AW[i][j], RHS[i][j], approx=(small or small_W), tol_=tolW)
+                    eq('W.A==e^sigma.R-I[%d,%d]' % (i, j), WA[i][j], RHS[i][j], approx=(small or small_W), tol_=tolW)
             if sg is None:
                 Wp = T.mv(W, ph)
                 for i in range(3):
@@ -161,7 +165,7 @@ def case_exp(H, g, f32=False):
                     if small_sigma:
                         eq('W.phi==phi[%d]' % i, Wp[i], ph[i], scale=ph[i] * ph[i], approx=True)
                     else:
-                        eq('sigma.W.phi==(e^sigma-1).phi[%d]' % i, sg * Wp[i], (es - 1) * ph[i], scale=ph[i] * ph[i])
+                        eq('sigma.W.phi==(e^sigma-1).phi[%d]' % i, sg * Wp[i], (es - 1) * ph[i], scale=ph[i] * ph[i], approx=(small or small_W), tol_=tolW)
         if pn % 2 == 0:
             H.reach('%s/path%d/reach' % (name, pn), hyp)
 
